@@ -3,7 +3,7 @@
 # count (split over shards), shards = parallel processes with different PRNG values.
 
 PROPS = {}
-HOOK_COMMITS = []
+HOOK_COMMITS = ["47c42dd"]
 NOT_CLAIMED = {}
 
 
@@ -32,3 +32,22 @@ prop("C10",
      assumptions=["simple strings/errors contain no CR or LF (RESP specification)",
                   "a replaced LF in the middle of an artefact is not 'malformed' (it joins two lines into another well-formed stream); only positionally checked LFs and the final LF are corrupted",
                   "lengths with a leading '+' (accepted by strconv) are not generated as malformations"])
+
+prop("C15",
+     title="Key-to-slot mapping follows the Redis Cluster specification",
+     quick=[{"re": "^TestC15(Exhaustive)?$", "checks": 20000},
+            {"re": "^TestC15Range$", "checks": 150}],
+     thorough=[{"re": "^TestC15(Exhaustive)?$", "checks": 3000000, "shards": 6, "timeout": 1500},
+               {"re": "^TestC15Range$", "checks": 4000, "shards": 4, "timeout": 1500},
+               {"re": "^TestC15AllSingleSlots$", "checks": 1, "shards": 8, "timeout": 1500}],
+     rule="(1) exhaustive: every string over {'{','}','a','b'} of length 0..8 (87381 keys); (2) rapid-generated keys from a brace grammar "
+          "(empty tags, unbalanced, nested, repeated, arbitrary bytes incl. invalid UTF-8); (3) slot ranges [l,r]: single slots, shard "
+          "edges, random (thorough: all 16384 single-slot ranges). Oracles: utils.KeyToSlot == reference implementation of the Redis "
+          "Cluster rule over a bit-by-bit CRC16/XMODEM; both private crc16 copies and go-cluster GetSlot (brace-free keys) == reference "
+          "CRC16; ChoseSlotInRange key non-empty, reference slot in [l,r], excluded by filter.FilterKey; findKeyInRange key in range. "
+          "Non-trivial: key with >= 2 braces; range narrower than 4 slots. Distinct = hash of key / of (l,r).",
+     technique="property-based testing (rapid) + exhaustive small-alphabet enumeration against a reference implementation of the Redis Cluster hash-slot rule (differential oracle)",
+     level_text="Exhaustive over all brace layouts up to length 8 plus generated search; differential against an independent reference (bitwise CRC16, literal spec rule) self-checked on published check values. The function is pure, so this is the strongest testing-level evidence available; no absence claim beyond the enumerated space.",
+     level_note="Trusted: ref.CRC16 (check value 0x31C3) and ref.Slot (checked on CLUSTER KEYSLOT examples from the specification). ChoseSlotInRange is only exercised with the checkpoint prefix, as the tool does.",
+     assumptions=["keys are byte strings; Go strings with invalid UTF-8 are included",
+                  "slot ranges satisfy 0<=l<=r<=16383 (as produced by cluster topology discovery)"])
